@@ -16,7 +16,7 @@ applied, the result is stored unaligned to the output buffer.  The clauses are w
 Modes (tools/README.md):
   SYM   integers: load/store/set/broadcast/reverse/neg/abs/+/-/min/max/compare/sum/minimum/maximum, all mask forms -- full domain;
         floats: data movement, unary minus, abs, compare, min/max, minimum()/maximum(), mask forms, casts (bit-level operations and
-        conversions are real); set_sequential of the generic template (real IEEE adders, <= 8 lanes)
+        conversions are real); set_sequential of the generic template (real IEEE adders, <= 256 bits of lanes)
   UF    float/double + - * / (vector, scalar and in-place forms), fmadd/fmsub/fnmadd, sqrt, unary minus, abs, set_sequential of the
         intrinsic specialisations -- lane congruence, bit exact (pipe P0)
   ATOMS integer lane multiply (out[i] == a[i]*b[i], vector / scalar / in-place forms) and dot; float/double sum() ('LIN': each
@@ -30,7 +30,8 @@ form the configuration documents is accepted (fused iff the build has FMA and th
 Aligned forms: a fresh caller object starts at offset 0, which the alignment assertions of the translation treat as aligned
 (alignment of the caller's pointer is the documented precondition of the aligned forms).
 The generic template's shift() is checked on the unoptimised pipeline (P0, mode SYM): -O1 trims accesses it can prove out of bounds.
-16-lane UF cases (~64 uninterpreted applications, 1-4 min of SAT) are checked in assertion form directly (no DFCC attempt).
+512-bit UF cases (16 floats / 8 doubles: up to ~64 uninterpreted applications, 1-4 min of SAT) are checked in assertion form
+directly (no DFCC attempt) with a 20 min budget; the quick tier keeps only the vector-vector forms for 16 lanes.
 
 Candidate-defect families (kept apart so that a finding matches one family): neg-int-simd, hmin-int / hmax-int, hmin-generic /
 hmax-generic, mask_store-fallback* / mask_store-prefix-fallback, lanes16-mask_*, broadcast (avx512), shift-generic, shift
